@@ -9,6 +9,7 @@ warning" is a violation, and so is a hang.
 """
 import io
 import os
+import sys
 import time
 import itertools
 import warnings
@@ -144,6 +145,31 @@ def check_string(s, embed, fails, counters):
                     fails.append((key, [{'sig': 'module:collection-escapes:' + type(ex).__name__,
                                          'msg': 'parse_doctestables on a module holding %r (style=%s) raised %r' % (s, style, ex)}], {'string': s}))
             harness.forget_modules(modname)
+            # the same module handed over as a *live module object* (xdoctest.doctest_module() called from inside a module,
+            # core.parse_doctestables(module)): the malformed docstring must be contained in the same way
+            n += 1
+            try:
+                import importlib
+                sys.path.insert(0, d)
+                try:
+                    importlib.invalidate_caches()
+                    modobj = importlib.import_module(modname)
+                finally:
+                    sys.path.remove(d)
+                with contextlib.redirect_stdout(io.StringIO()), warnings.catch_warnings():
+                    warnings.simplefilter('ignore')
+                    exs = list(core.parse_doctestables(modobj, style='auto'))
+                names = set(e.callname for e in exs)
+                if not {'ok1', 'ok2'} <= names:
+                    fails.append((key, [{'sig': 'module:live-object:siblings-not-collected',
+                                         'msg': 'live module holding %r: collected %r' % (s, sorted(names))}], {'string': s}))
+            except BaseException as ex:
+                if type(ex).__name__ == 'CaseTimeout':
+                    raise
+                fails.append((key, [{'sig': 'module:live-object:collection-escapes:' + type(ex).__name__,
+                                     'msg': 'parse_doctestables(<module object>) on a module holding %r raised %r' % (s, ex)}], {'string': s}))
+            finally:
+                harness.forget_modules(modname)
         if '\n' in s:
             # second embedding: the text as the *module* docstring, written on line 1 as a one-line triple-quoted
             # literal whose newlines are escape sequences (the value has more lines than the literal)
